@@ -177,6 +177,12 @@ def gen_instance(rng: random.Random, *, max_jobs=5, max_machines=4, max_ops=4,
         flexible = rng.random() < 0.4
     if zero is None:
         zero = rng.random() < 0.3
+    # "heavy": most durations are 0 and every job begins with a zero-duration operation, so that whole
+    # prefixes of a history have makespan 0 although operations are scheduled
+    zero_heavy = bool(zero) and rng.random() < 0.2
+    # "all huge": every duration sits next to 2^24 or 2^53 (or is tiny), so sums and differences of times are
+    # exact as Python ints but not as float32 / float64
+    huge_base = rng.choice([1 << 24, 1 << 53]) if huge and rng.random() < 0.06 else None
     lo_ops = 0 if allow_empty_jobs else 1
     if min_ops is not None:
         lo_ops = min_ops
@@ -198,8 +204,12 @@ def gen_instance(rng: random.Random, *, max_jobs=5, max_machines=4, max_ops=4,
             else:
                 ms = [rng.randrange(nm)]
             r = rng.random()
-            if zero and r < 0.25:
+            if huge_base is not None:
+                d = huge_base + rng.randint(-3, 3) if r < 0.6 else rng.randint(1, 3)
+            elif zero and (r < 0.25 or (zero_heavy and (p == 0 or r < 0.7))):
                 d = 0
+            elif huge and r > 0.97:
+                d = (1 << 53) + rng.randint(-3, 3)      # beyond float64's exact integer range (Python ints are exact)
             elif huge and r > 0.93:
                 d = (1 << 24) + rng.randint(-3, 3)      # beyond float32's exact integer range
             elif big and r > 0.9:
